@@ -24,7 +24,7 @@ RULE = ('cases: seeded histories of <=60 ops (join, leave, re-join, attach, deta
 ASSUMPTIONS = ['component classes use identity equality; each component instance belongs to one agent',
                'PositionComponent managed by spatial worlds is outside the claim', 'F1/F2/F3/F6 are known findings (not repaired)']
 FLOORS = {'quick': {'listing_comparisons': 20000, 'classA_histories': 400, 'joins': 3000, 'leaves': 1500, 'rejoins': 500,
-                    'empty_answers': 3000, 'leave_shared_type': 500, 'strict_keyerror': 1000, 'migrations': 300, 'refused_offmap_joins': 200,
+                    'empty_answers': 3000, 'leave_shared_type': 500, 'strict_keyerror': 1000, 'migrations': 300, 'refused_offmap_joins': 200, 'models_completed_mid_history': 150, 'populated_world_installed_later': 80,
                     'reach:Core.SystemManager.register_component': 2000, 'reach:Core.SystemManager.deregister_component': 1000},
           'thorough': {'listing_comparisons': 1000000, 'classA_histories': 40000}}
 EXHAUSTIVE = {}
@@ -43,26 +43,35 @@ def comp_classes(core):
     global _comp_classes
     if _comp_classes is None:
         _comp_classes = [type(f'K{i}', (core.Component,), {'__slots__': ()}) for i in range(5)]
+        import ECAgent.Environments as envs_
+        # a user component that extends the library's PositionComponent (e.g. 'Home'): an ordinary user component for the listings
+        _comp_classes[4] = type('K4Home', (envs_.PositionComponent,), {'__slots__': ()})
         _comp_classes.append(type('Nobody', (core.Component,), {'__slots__': ()}))
     return _comp_classes
 
 
 class MModel:
-    """One live real model + its reference."""
+    """One live real model + its reference.  `env` is the environment the agents live in; it is installed in the model either at
+    once (model.environment = world) or later, after it has been populated (model.set_environment(world))."""
 
     def __init__(self, core, envs, rng, name):
         self.name = name
         self.real = core.Model()
         kind = rng.choice(['plain', 'plain', 'space', 'discrete', 'line', 'grid'])
         self.kind = kind
+        env = self.real.environment
         if kind == 'space':
-            self.real.environment = envs.SpaceWorld(self.real, 5.0, rng.choice([0.0, 4.0]), rng.choice([0.0, 3.0]))
+            env = envs.SpaceWorld(self.real, 5.0, rng.choice([0.0, 4.0]), rng.choice([0.0, 3.0]))
         elif kind == 'discrete':
-            self.real.environment = envs.DiscreteWorld(self.real, 3, rng.choice([0, 2]), rng.choice([0, 2]))
+            env = envs.DiscreteWorld(self.real, 3, rng.choice([0, 2]), rng.choice([0, 2]))
         elif kind == 'line':
-            self.real.environment = envs.LineWorld(self.real, 4)
+            env = envs.LineWorld(self.real, 4)
         elif kind == 'grid':
-            self.real.environment = envs.GridWorld(self.real, 3, 2)
+            env = envs.GridWorld(self.real, 3, 2)
+        self.env = env
+        self.install_later = kind != 'plain' and rng.random() < 0.3
+        if not self.install_later:
+            self.real.environment = env
         self.residents = []   # RefAgent in joining order
 
 
@@ -120,7 +129,7 @@ def case_history(ctx, case):
     rng = ctx.rng('hist', case['i'])
     core, envs = _env()
     K = comp_classes(core)
-    ntypes = rng.randint(4, 5)
+    ntypes = rng.choice([4, 5, 5])
     types = K[:ntypes] + [K[-1]]
     cls = rng.choices(['A', 'B', 'C'], weights=[50, 25, 25])[0]
     ctx.count(f'class{cls}_histories')
@@ -181,9 +190,23 @@ def case_history(ctx, case):
         return keys
 
     nops = rng.randint(25, 60)
+    complete_at = {rng.randrange(nops): rng.choice(models)} if rng.random() < 0.3 else {}
     stopped = None
     reported = set()
     for step in range(nops):
+        if step in complete_at:
+            complete_at[step].real.complete()        # agents keep joining and leaving a finished model (reporting, clean-up)
+            ctx.count('models_completed_mid_history')
+            trace.append(f'complete {complete_at[step].name}')
+        for m_ in models:
+            if m_.install_later and len(m_.residents) >= 2:
+                m_.real.set_environment(m_.env)      # the populated world is installed now
+                m_.install_later = False
+                ctx.count('populated_world_installed_later')
+                trace.append(f'set_environment {m_.name}')
+                d1 = observe(ctx, models, types, step)
+                if d1 and cls == 'A':
+                    fail('after installing an already populated world with set_environment', d1)
         a = rng.choice(agents)
         mm = a.mm
         x = rng.random()
@@ -197,7 +220,7 @@ def case_history(ctx, case):
                     flags.add('migrate')
             if any(b.real.id == a.real.id for b in mm.residents):
                 continue        # id taken there (duplicate adds are C04's subject)
-            env = mm.real.environment
+            env = mm.env
             if mm.kind != 'plain' and rng.random() < 0.2:
                 # a join that the world refuses (off the map) must leave the listings untouched
                 try:
@@ -228,7 +251,7 @@ def case_history(ctx, case):
             tainted = [c for c in a.comps.values() if info[id(c)]['attached_resident'] and not info[id(c)]['registered']]
             trace.append(f'leave {a.real.id}/{mm.name}')
             try:
-                mm.real.environment.remove_agent(a.real.id)
+                mm.env.remove_agent(a.real.id)
             except KeyError as e:
                 if cls == 'C' and tainted:
                     ctx.finding('remove-agent-keyerror-unregistered-component',
